@@ -1,0 +1,68 @@
+/*-
+  verif.h -- verification hooks (event trace, schedule perturbation)
+
+  Everything in this file is inactive unless the program is compiled with
+  -DKJN_LBZIP2_VERIF.  With the guard off every macro expands to nothing.
+
+  With the guard on, nothing happens either unless one of the environment
+  variables VERIF_TRACE, VERIF_SCHED_SEED, VERIF_DELAY, VERIF_*_GRANUL or
+  VERIF_*_SLOTS is set.
+
+  LOCK RULE: the hook layer owns exactly one mutex (the trace lock), which is
+  a leaf: it is taken with any lbzip2 mutex held and nothing is ever acquired
+  while holding it.  No hook may block on anything else.
+*/
+
+#ifdef KJN_LBZIP2_VERIF
+
+#include <stddef.h>
+
+/* Monitor bits for verif_mon_set()/verif_mon_clr(). */
+#define VERIF_M_SCHED  1
+#define VERIF_M_SOURCE 2
+#define VERIF_M_SINK   4
+
+/* Buffer classes for allocation accounting. */
+enum verif_class {
+  VERIF_C_INBUF,                /* input I/O buffer */
+  VERIF_C_ENC,                  /* encoder state */
+  VERIF_C_OUTBUF,               /* output buffer */
+  VERIF_C_DEC,                  /* decoder state (retrieve/emit job) */
+  VERIF_C_UNORD,                /* unord_blk record */
+  VERIF_C_MAX
+};
+
+void verif_ev(const char *fmt, ...)
+  __attribute__((format(printf, 1, 2)));
+void verif_mon_set(int bit);
+void verif_mon_clr(int bit);
+void verif_perturb(void);
+void verif_delay(const char *site, unsigned long key);
+void verif_alloc(int cls, int delta);
+int verif_live(int cls);
+int verif_peak(int cls);
+void verif_alloc_reset(void);
+unsigned verif_rel_take(void);
+void verif_rel_note(void);
+int verif_tracing(void);
+unsigned long verif_env(const char *name, unsigned long dflt);
+
+#define VERIF_EV(...)        verif_ev(__VA_ARGS__)
+#define VERIF_MON_SET(b)     verif_mon_set(b)
+#define VERIF_MON_CLR(b)     verif_mon_clr(b)
+#define VERIF_PERTURB()      verif_perturb()
+#define VERIF_DELAY(s,k)     verif_delay((s), (k))
+#define VERIF_ALLOC(c)       verif_alloc((c), 1)
+#define VERIF_FREE(c)        verif_alloc((c), -1)
+
+#else
+
+#define VERIF_EV(...)        ((void)0)
+#define VERIF_MON_SET(b)     ((void)0)
+#define VERIF_MON_CLR(b)     ((void)0)
+#define VERIF_PERTURB()      ((void)0)
+#define VERIF_DELAY(s,k)     ((void)0)
+#define VERIF_ALLOC(c)       ((void)0)
+#define VERIF_FREE(c)        ((void)0)
+
+#endif
